@@ -13,7 +13,7 @@ def free_port():
 
 class Server:
     def __init__(self, root, threads=4, lane="rel", env=None, args=None, trace=False, strace=False, config_file=None,
-                 port=None, ip="127.0.0.1", use_default_args=True, mixed_app=False, virtual_time=False, nofile=None):
+                 port=None, ip="127.0.0.1", use_default_args=True, mixed_app=False, virtual_time=False, nofile=None, connect_ip=None):
         """mixed_app: instead of the shipped binary, the harness runs the same accept loop (Server::run) and pool with an
         application that fails on demand (target contains __panic / __panic_long / __panic_any / __err / __slow)"""
         self.root, self.threads, self.lane = root, threads, lane
@@ -22,6 +22,7 @@ class Server:
         self.dir = core.scratch("srv-")
         self.port = port or free_port()
         self.ip = ip
+        self.connect_ip = connect_ip or ip   # e.g. a '::' listener reached by an IPv4 client: the peer is ::ffff:127.0.0.1
         self.out_path = os.path.join(self.dir, "stdout.log")
         self.err_path = os.path.join(self.dir, "stderr.log")
         self.strace_path = os.path.join(self.dir, "strace.log") if strace else None
@@ -29,6 +30,8 @@ class Server:
         # symbolised backtraces of concurrent panics are serialised by std and take 0.1 - 1 s each: they would turn
         # "a worker is printing" into "a worker is stuck"; the 'panicked at' line itself is always printed
         e["RUST_BACKTRACE"] = "0"
+        # a process environment is not always UTF-8 (a Latin-1 word left by a legacy locale): iterating it must not matter
+        e.setdefault("VF_LEGACY_WORD", os.fsdecode(b"caf\xe9"))
         # virtual time: the process's clocks can be moved forward with advance_clock() (LD_PRELOAD shim)
         self.shift_path = None
         if virtual_time:
@@ -168,9 +171,9 @@ class Server:
 
     # ---- client
     def connect(self, timeout=5.0):
-        s = socket.socket(socket.AF_INET6 if ":" in self.ip else socket.AF_INET)
+        s = socket.socket(socket.AF_INET6 if ":" in self.connect_ip else socket.AF_INET)
         s.settimeout(timeout)
-        s.connect((self.ip, self.port))
+        s.connect((self.connect_ip, self.port))
         return s
 
     def request(self, data, timeout=10.0, half_close=False):
